@@ -1536,6 +1536,9 @@ func run(c *vkit.Collector, rng *vkit.Rng, budget int) {
 		runConcurrentFirstUse(c, rng, k)
 	}
 	runTilings(c, rng, budget)
+	for k := 0; k < 6*budget; k++ {
+		runLaxBalanced(c, rng, k)
+	}
 }
 
 // the empty and full loops: paths agree, Invert swaps them
